@@ -571,6 +571,138 @@ func TestVerifC11(t *testing.T) {
 	}
 	c11InstallPhase(rep, routes, methods)
 	c11BrokenSessionsDB(rep, up, routes, methods)
+	c11NoLimiter(rep, up)
+	c11Shutdown(rep, up)
+}
+
+// c11NoLimiter runs the server with the login rate limiter switched off in the
+// configuration: wrong credentials must still not yield a session, and
+// whatever cookie a refused login returns must not open a protected route.
+func c11NoLimiter(rep *verifkit.Report, up *sysUpstream) {
+	for _, lim := range []string{"auth_attempts: 0\nblock_auth_min: 0\n", "auth_attempts: 0\nblock_auth_min: 15\n", "auth_attempts: 5\nblock_auth_min: 0\n"} {
+		in, err := sysStart("", sysConfOpts{UpstreamPort: up.Port, AuthLimiter: lim})
+		if err != nil {
+			rep.Inconcl("no-limiter phase start: " + err.Error())
+
+			return
+		}
+		rep.Class("configurations_with_login_limiter_switched_off")
+		for _, lc := range [][2]string{{"nobody", ""}, {"", ""}, {sysUser, ""}, {sysUser, "wrong"}, {"nobody", sysPass}, {"nobody", "x"}} {
+			bodies := []string{fmt.Sprintf(`{"name":%q,"password":%q}`, lc[0], lc[1])}
+			if lc[0] == "" {
+				bodies = append(bodies, "{}")
+			}
+			for _, body := range bodies {
+				hc := &http.Client{Timeout: 10 * time.Second, CheckRedirect: func(*http.Request, []*http.Request) error { return http.ErrUseLastResponse }}
+				req, _ := http.NewRequest("POST", fmt.Sprintf("http://127.0.0.1:%d/control/login", in.WebPort), strings.NewReader(body))
+				req.Header.Set("Content-Type", "application/json")
+				resp, rerr := hc.Do(req)
+				rep.Eval(true, "nolimiter|"+lim+"|"+body)
+				rep.Class("login_attempts_with_wrong_credentials_limiter_off")
+				if rerr != nil {
+					continue
+				}
+				cookie := ""
+				for _, c := range resp.Cookies() {
+					if c.Name == "agh_session" && c.Value != "" {
+						cookie = c.Value
+					}
+				}
+				_ = resp.Body.Close()
+				if resp.StatusCode == 200 {
+					rep.Violate("login-accepted-wrong-credentials:limiter-off", fmt.Sprintf("POST /control/login accepted name=%q password=%q with the rate limiter off (%s)", lc[0], lc[1], strings.ReplaceAll(lim, "\n", " ")), map[string]any{"status": resp.StatusCode, "body": body})
+				}
+				if cookie != "" {
+					r := c11Raw(in.WebPort, "GET", "/control/status", map[string]string{"Cookie": "agh_session=" + cookie}, "")
+					if r.Status == 200 {
+						rep.Violate("unauthenticated-not-refused:cookie-from-refused-login:limiter-off", "a cookie handed out by a login with wrong credentials opens a protected route", map[string]any{"login_status": resp.StatusCode, "body": body})
+					}
+				}
+			}
+		}
+		// Positive control.
+		if _, lerr := c11Login(in); lerr != nil {
+			rep.Inconcl("no-limiter phase: the right credentials are not accepted: " + lerr.Error())
+		}
+		in.Kill()
+		_ = os.RemoveAll(in.Dir)
+	}
+}
+
+// c11Shutdown has requests without credentials half-sent on accepted
+// connections when the server is told to stop, and completes them while it
+// shuts down: they must be refused or dropped, never served, and must not
+// change the configuration.
+func c11Shutdown(rep *verifkit.Report, up *sysUpstream) {
+	rounds := verifkit.Pick(2, 8)
+	for round := 0; round < rounds; round++ {
+		in, err := sysStart("", sysConfOpts{UpstreamPort: up.Port})
+		if err != nil {
+			rep.Inconcl("shutdown phase start: " + err.Error())
+
+			return
+		}
+		marker := fmt.Sprintf("||shutdown-marker-%d.verif.test^", round)
+		body := fmt.Sprintf(`{"rules":[%q]}`, marker)
+		type pend struct {
+			conn net.Conn
+			rest string
+			what string
+		}
+		var pends []pend
+		for k := 0; k < 6; k++ {
+			conn, derr := net.DialTimeout("tcp", fmt.Sprintf("127.0.0.1:%d", in.WebPort), 3*time.Second)
+			if derr != nil {
+				continue
+			}
+			var head, rest, what string
+			if k%2 == 0 {
+				full := fmt.Sprintf("POST /control/filtering/set_rules HTTP/1.1\r\nHost: 127.0.0.1\r\nContent-Type: application/json\r\nContent-Length: %d\r\nConnection: close\r\n\r\n%s", len(body), body)
+				cut := len(full) - len(body)/2
+				head, rest, what = full[:cut], full[cut:], "POST /control/filtering/set_rules"
+			} else {
+				full := "GET /control/status HTTP/1.1\r\nHost: 127.0.0.1\r\nConnection: close\r\n\r\n"
+				head, rest, what = full[:20], full[20:], "GET /control/status"
+			}
+			_, _ = conn.Write([]byte(head))
+			pends = append(pends, pend{conn: conn, rest: rest, what: what})
+		}
+		time.Sleep(100 * time.Millisecond)
+		in.signalTarget(syscall.SIGTERM)
+		time.Sleep(time.Duration(50+150*round) * time.Millisecond)
+		for _, p := range pends {
+			_, _ = p.conn.Write([]byte(p.rest))
+			_ = p.conn.SetReadDeadline(time.Now().Add(8 * time.Second))
+			buf := make([]byte, 4096)
+			n, _ := p.conn.Read(buf)
+			_ = p.conn.Close()
+			rep.Eval(true, fmt.Sprintf("shutdown|%d|%s", round, p.what))
+			rep.Class("requests_completed_during_shutdown")
+			status := ""
+			if n > 12 {
+				status = string(buf[9:12])
+			}
+			switch {
+			case n == 0:
+				rep.Class("request_during_shutdown_dropped")
+			case status == "403" || status == "401" || status == "400" || status == "503":
+				rep.Class("request_during_shutdown_refused")
+			case status == "200" || status == "302" && !strings.Contains(string(buf[:n]), "login.html"):
+				rep.Violate("unauthenticated-not-refused:during-shutdown", fmt.Sprintf("%s without credentials, completed while the server was shutting down, was answered %s", p.what, status), map[string]any{"round": round, "reply_head": sysTail(string(buf[:min(n, 300)]), 300)})
+			default:
+				rep.Class("request_during_shutdown_other_status_" + status)
+			}
+		}
+		select {
+		case <-in.done:
+		case <-time.After(30 * time.Second):
+			in.Kill()
+		}
+		if cfg, rerr := os.ReadFile(filepath.Join(in.Dir, "AdGuardHome.yaml")); rerr == nil && strings.Contains(string(cfg), "shutdown-marker-") {
+			rep.Violate("state-changed-by-unauthenticated-requests:during-shutdown", "a rule sent without credentials during the shutdown is in the configuration file", map[string]any{"round": round})
+		}
+		_ = os.RemoveAll(in.Dir)
+	}
 }
 
 // c11BrokenSessionsDB starts the server with a configured administrator and a
